@@ -303,6 +303,17 @@ def run_statement(case, ctx: Ctx) -> None:
 
 # ------------------------------------------------------------------------------------------ sessions and tokens
 
+# shapes a table that several sessions look at is re-created with: (column list, rows as SQL, rows as Python, description triples)
+import datetime as _dt  # noqa: E402
+from decimal import Decimal as _D  # noqa: E402
+
+SHAPES = [
+    ("AMOUNT INT", "(150), (275)", [(150,), (275,)], [("AMOUNT", 0, 0)]),
+    ("PRICE NUMBER(10,2)", "(1.50), (2.75)", [(_D("1.50"),), (_D("2.75"),)], [("PRICE", 0, 2)]),
+    ("NAME VARCHAR, N INT", "('a', 1), ('b', 2)", [("a", 1), ("b", 2)], [("NAME", 2, None), ("N", 0, 0)]),
+    ("AT TIMESTAMP_NTZ", "('2020-01-02 03:04:05'), ('1969-12-31 23:59:59.5')", [(_dt.datetime(1969, 12, 31, 23, 59, 59, 500000),), (_dt.datetime(2020, 1, 2, 3, 4, 5),)], [("AT", 8, None)]),
+]
+
 _sess_op = st.one_of(
     st.tuples(st.just("login"), st.sampled_from(["shared", "isolated"]), st.sampled_from(["db1", "db2"]), st.sampled_from(["s1", "s2"])).map(list),
     st.tuples(st.just("create"), st.integers(0, 3), st.sampled_from(["TA", "TB"])).map(list),
@@ -311,13 +322,27 @@ _sess_op = st.one_of(
     st.tuples(st.just("context"), st.integers(0, 3)).map(list),
     st.tuples(st.just("set"), st.integers(0, 3), st.integers(0, 9)).map(list),
     st.tuples(st.just("getvar"), st.integers(0, 3)).map(list),
+    st.tuples(st.just("replace"), st.integers(0, 3), st.integers(0, 3)).map(list),
+    st.tuples(st.just("replace"), st.integers(0, 3), st.integers(0, 3)).map(list),
+    st.tuples(st.just("peek"), st.integers(0, 3)).map(list),
+    st.tuples(st.just("peek"), st.integers(0, 3)).map(list),
+    st.tuples(st.just("peek"), st.integers(0, 3)).map(list),
     st.tuples(st.just("bad-request"), st.sampled_from(["no-header", "unknown-token", "short-token", "long-token", "empty-token"]), st.integers(0, 3)).map(list),
 )
 
 
 @st.composite
 def _session_case(draw, tier):
-    return {"ops": [["login", "shared", "db1", "s1"]] + draw(st.lists(_sess_op, min_size=2, max_size=12))}
+    ops = [["login", "shared", "db1", "s1"]] + draw(st.lists(_sess_op, min_size=2, max_size=12))
+    if draw(st.integers(0, 2)):
+        # one session repeats the very same query text, with nothing of its own in between, while another one re-creates the table
+        ops.insert(1, ["login", draw(st.sampled_from(["shared", "shared", "isolated"])), "db1", draw(st.sampled_from(["s1", "s2"]))])
+        a, b = draw(st.integers(0, 3)), draw(st.integers(0, 3))
+        k1, k2 = draw(st.integers(0, 3)), draw(st.integers(0, 3))
+        ops += [["replace", b, k1], ["peek", a], ["replace", b, k2], ["peek", a]]
+        if draw(st.booleans()):
+            ops += [["replace", b, draw(st.integers(0, 3))], ["peek", a], ["peek", b]]
+    return {"ops": ops}
 
 
 def run_sessions(case, ctx: Ctx) -> None:
@@ -332,6 +357,7 @@ def run_sessions(case, ctx: Ctx) -> None:
     tag = f"{abs(hash(json.dumps(case, sort_keys=True))) % 10**8}_{int(time.time() * 1000) % 10**6}"
     dbname = {"db1": f"DBA{tag}", "db2": f"DBB{tag}"}
     shared_tables: set = set()
+    shape_shared: list = [None]
     try:
         for op in case["ops"]:
             kind = op[0]
@@ -384,6 +410,43 @@ def run_sessions(case, ctx: Ctx) -> None:
                 if mine != want:
                     ctx.fail(f"C17|sessions|data-sharing|{m['kind']}-session", f"session {i} ({m['kind']}) sees {sorted(mine)}, model {sorted(want)}")
                 ctx.cls(f"list:{m['kind']}")
+            elif kind in ("replace", "peek"):
+                # one table that every data-sharing session looks at with the very same statement text while others re-create it with another shape
+                if m["kind"] == "shared":
+                    holder, fq = shape_shared, f"{dbname['db1']}.S1.LOOKED_AT"
+                else:
+                    holder, fq = m.setdefault("shape", [None]), f"{m['db']}.{m['schema']}.LOOKED_AT"
+                if kind == "replace":
+                    if not isinstance(op[2], int) or not 0 <= op[2] < len(SHAPES):
+                        raise InvalidCase()
+                    cols, vals, _, _ = SHAPES[op[2]]
+                    run(cur, f"CREATE SCHEMA IF NOT EXISTS {fq.rsplit('.', 1)[0]}")
+                    for sql in (f"CREATE OR REPLACE TABLE {fq} ({cols})", f"INSERT INTO {fq} VALUES {vals}"):
+                        o = run(cur, sql)
+                        if not o.ok:
+                            ctx.fail(f"C17|sessions|replace-fails|{o.etype}", f"{sql}: {o}")
+                            return
+                    if holder[0] is not None and holder[0] != op[2]:
+                        ctx.cls("looked-at-table-changed-shape")
+                    holder[0] = op[2]
+                    d_, s_, _ = fq.upper().split(".")
+                    (shared_tables if m["kind"] == "shared" else m["tables"]).add((d_, s_, "LOOKED_AT"))
+                elif holder[0] is not None:
+                    _, _, want_rows, want_desc = SHAPES[holder[0]]
+                    o = run(cur, f"SELECT * FROM {fq} ORDER BY 1")
+                    if not o.ok:
+                        ctx.fail(f"C17|sessions|peek-fails|{o.etype}", f"{o}")
+                        continue
+                    got_desc = [(d.name, d.type_code, d.scale if d.type_code == 0 else None) for d in cur.description]
+                    if got_desc != want_desc:
+                        ctx.fail(f"C17|sessions|stale-or-wrong-description|{m['kind']}-session", f"session {i}: description {got_desc}, the table now is {SHAPES[holder[0]][0]!r} ({want_desc})")
+                    elif [tuple(r) for r in o.rows] != want_rows or [type(x) for r in o.rows for x in r] != [type(x) for r in want_rows for x in r]:
+                        ctx.fail(f"C17|sessions|stale-or-wrong-rows|{m['kind']}-session", f"session {i}: rows {o.rows!r}, want {want_rows!r}")
+                    seen = m.setdefault("peeked", set())
+                    if seen and holder[0] not in seen:
+                        ctx.cls("same-text-after-shape-change")
+                        ctx.nontrivial = True
+                    seen.add(holder[0])
             elif kind == "use":
                 other = op[2].upper()
                 run(cur, f"CREATE SCHEMA IF NOT EXISTS {m['db']}.{other}")
